@@ -96,7 +96,7 @@ class XlsxRT:
 
 class FramesFam:
     PROPS = ["C10", "C17", "C32"]
-    ASSUMPTIONS = ["one workbook (3 sheets, 40 formulas: cross-sheet references, quoted sheet names, references and a range on sheets that do not exist, global / sheet-local / LAMBDA / range names and an unknown name, whole-column range, TEXT and & (locale-dependent), errors, a conditional format whose rule uses a name) driven through seeded random sequences of 25 operations: set_language (5), set_locale (6), rename / move / duplicate / delete sheet, rename a defined name, type the shown content of a formula back (in whatever language is active), to_bytes/from_bytes, xlsx export+import",
+    ASSUMPTIONS = ["one workbook (3 sheets, 54 formulas, defined names used in every operator position: cross-sheet references, quoted sheet names, references and a range on sheets that do not exist, global / sheet-local / LAMBDA / range names and an unknown name, whole-column range, TEXT and & (locale-dependent), errors, a conditional format whose rule uses a name) driven through seeded random sequences of 25 operations: set_language (5), set_locale (6), rename / move / duplicate / delete sheet, rename a defined name, type the shown content of a formula back (in whatever language is active), to_bytes/from_bytes, xlsx export+import; after every language / locale switch the workbook is also re-read from its bytes (everything stored is parsed again)",
                    "before and after every operation the components named in FrameLaws.tla are projected: all values (in English spelling), values of formulas without SHEET/CELL/INDIRECT/FORMULATEXT/ADDRESS, non-text values of formulas without TEXT/VALUE/FIXED/DOLLAR/NUMBERVALUE/DATEVALUE/TIMEVALUE/&, stored formula texts (worksheet.shared_formulas), defined names as stored, conditional formats as stored, sheet names spelled by each formula and defined names used by each formula (read from the parsed trees)",
                    "TLC evaluates the law of each event (TraceFrames.tla); a sheet rename to a name that dangling references already spell may change values (shown by the design model Frames.tla) and carries no verdict on values; a global name is not renamed on sheets that shadow it",
                    "attribution: language / locale / re-entry laws C10 (names also C32); sheet rename / move / duplicate C17 (names C32); delete sheet, rename name, reload, xlsx: C32"]
@@ -135,7 +135,7 @@ class FramesFam:
             x = details.get(l, {})
             last = (x.get("program") or [{}])[-1]
             # residue: the first difference of the component the law speaks about, normalised
-            comp = {"language-changes-values": "vals", "locale-changes-values": "vals_nl", "re-entry-changes-values": "vals", "rename-changes-values": "vals_ns", "move-changes-values": "vals_ns",
+            comp = {"language-changes-values": "vals", "locale-changes-values": "vals_nl", "re-entry-changes-values": "vals", "switch-then-reread-changes-values": "vals", "rename-changes-values": "vals_ns", "move-changes-values": "vals_ns",
                     "rename-name-changes-values": "vals"}.get(law, "names" if "names" in law else ("stored" if "stored" in law else ("cfs" if "conditional" in law else "")))
             dd = (x.get("diff", {}).get(comp) or x.get("diff", {}).get("copy_vs_source") or [""])[0]
             parts = (dd.split("\t") + ["", ""])[:3]
@@ -157,7 +157,7 @@ class FramesFam:
     @staticmethod
     def evidence_for(prop, res):
         r = res["run"]
-        mine = {"C10": ("set_lang", "set_locale", "retype"), "C17": ("rename_sheet", "move_sheet", "dup_sheet"), "C32": ("set_lang", "set_locale", "rename_sheet", "move_sheet", "del_sheet", "rename_name", "reload", "xlsx")}[prop]
+        mine = {"C10": ("set_lang", "set_locale", "retype", "reparse"), "C17": ("rename_sheet", "move_sheet", "dup_sheet"), "C32": ("set_lang", "set_locale", "rename_sheet", "move_sheet", "del_sheet", "rename_name", "reload", "xlsx")}[prop]
         n = sum(c for k, c in r["kinds"].items() if k.endswith(":ok") and k.split(":")[0] in mine)
         return {"states": res["design"]["states"] + res["i2s"]["events"], "transitions": res["design"]["transitions"] + res["i2s"]["events"],
                 "traces_validated_against_impl": r["runs"], "samples": [{"operation_counts": r["kinds"]}],
